@@ -325,7 +325,12 @@ func wellSeparated(h []model3d.RayCollision) bool {
 	return true
 }
 
-var dirs = []model3d.Coord3D{{X: 1}, {Y: -1}, {Z: 1}, {X: 1, Y: 1}, {X: -1, Z: 1}, {X: 1, Y: 1, Z: -1}, {X: 0.3, Y: 1, Z: 0.2}, {X: -0.7, Y: 0.1, Z: 0.71}, {X: 0.9, Y: -0.1, Z: 0.43}}
+var negZero = math.Copysign(0, -1)
+
+// direction alphabet; the last three have IEEE negative zeros as their zero components (what Scale(-1) or a
+// mirror produces)
+var dirs = []model3d.Coord3D{{X: 1}, {Y: -1}, {Z: 1}, {X: 1, Y: 1}, {X: -1, Z: 1}, {X: 1, Y: 1, Z: -1}, {X: 0.3, Y: 1, Z: 0.2}, {X: -0.7, Y: 0.1, Z: 0.71}, {X: 0.9, Y: -0.1, Z: 0.43},
+	{X: -1, Y: negZero, Z: negZero}, {X: negZero, Y: 1, Z: negZero}, {X: 1, Y: negZero, Z: -1}}
 
 // ---- 2D ----
 
